@@ -70,6 +70,7 @@ class GenCfg:
     p_odd_basename: float = 0.0  # probability that an imported file's base name is no identifier (my-shared, defs.v2)
     p_subdir: float = 0.0  # probability that a file lives in a subdirectory of the schema root (imports written relative to the importing file)
     p_shared_as_name: float = 0.0  # probability that an import reuses the name an imported file binds to a DIFFERENT file (names are per file)
+    p_same_short_name: float = 0.0  # probability that a nested enum/message reuses the short name of a definition nested under ANOTHER top-level message (Motor.Mode / Led.Mode)
     std_signed_only: bool = False  # signed ints only of width 8/16/32/64 (big-endian emulation limit, see DESIGN C06)
 
 
@@ -212,6 +213,28 @@ class SchemaGen:
                 return a
         return self.elem_type(avail, budget)
 
+    def _maybe_reuse_short_name(self, d: Any, parent: Message) -> None:
+        """Names are per scope: `Motor.Mode` and `Led.Mode` are different types with one short name.  Only names nested under another
+        top-level message are reused (inside one subtree the outer name would be hidden and, a message not being visible inside its
+        own body, could not be written at all)."""
+        root = parent
+        while isinstance(root.parent, Message):
+            root = root.parent
+        book = self.__dict__.setdefault("_nested_names", {})   # id(root) -> [(kind, name)]
+        mine = book.setdefault(id(root), [])
+        cfg, rng = self.cfg, self.rng
+        if cfg.p_same_short_name and rng.random() < cfg.p_same_short_name:
+            taken = {n for _, n in mine}
+            cand = [n for rid, lst in book.items() if rid != id(root) for (k, n) in lst if n not in taken]
+            if cand:
+                new = rng.choice(cand)
+                if isinstance(d, Enum):
+                    old_tag, new_tag = upper_snake(d.name), upper_snake(new)
+                    d.members = [(new_tag + mn[len(old_tag):] if mn.startswith(old_tag) else mn, v) for mn, v in d.members]
+                d.name = new
+                self.__dict__["_reused_short_names"] = self.__dict__.get("_reused_short_names", 0) + 1
+        mine.append((type(d).__name__, d.name))
+
     # -- messages ----------------------------------------------------------
     def gen_message(self, parent: Any, avail: List[Any], consts: List[Const], depth: int) -> Message:
         rng, cfg = self.rng, self.cfg
@@ -234,10 +257,12 @@ class SchemaGen:
             if depth < cfg.max_depth and rng.random() < cfg.p_nested:
                 if rng.random() < 0.5:
                     e = self.gen_enum(m)
+                    self._maybe_reuse_short_name(e, m)
                     m.items.append(e)
                     local.append(e)
                 else:
                     sub = self.gen_message(m, local, consts, depth + 1)
+                    self._maybe_reuse_short_name(sub, m)
                     m.items.append(sub)
                     if ref.nbits(sub) <= budget:
                         local.append(sub)
@@ -363,6 +388,44 @@ class SchemaGen:
             imported.append(self.gen_file(deps, False))
         direct = [g for g in imported if g not in inner or rng.random() >= cfg.p_transitive_ref]
         return self.gen_file(direct, True)
+
+
+def add_same_name_shapes(root: File, rng: random.Random, ext_ok: bool = True) -> None:
+    """Two top-level messages that each nest an enum and a message under the SAME short names (different widths / fields), with arrays
+    of equal capacity and equal extensible mark over both, plus a third message that uses all four through qualified names - anything
+    keyed on a short name, a printed type or (capacity, mark) confuses them.  Also arrays whose ELEMENT type is an alias of a signed
+    integer of non-standard width."""
+    tag = "".join(rng.choice("abcdefghijklmnopqrstuvwxyz") for _ in range(4)).capitalize()
+    mode, sample = "Mode" + tag, "Sample" + tag
+    cap, cap2 = rng.choice([1, 2, 3, 4, 7]), rng.choice([1, 2, 3])
+    ext = ext_ok and rng.random() < 0.4
+    sides = []
+    for side, ew, widths in (("Left", rng.choice([1, 2, 3]), [3, 5]), ("Right", rng.choice([4, 5, 9]), [7, 12, 1])):
+        m = Message(side + tag)
+        e = Enum(mode, ew, [(f"{side.upper()}_{tag.upper()}_A", 0), (f"{side.upper()}_{tag.upper()}_B", (1 << ew) - 1)])
+        m.add(e)
+        sub = Message(sample)
+        for k, w in enumerate(widths):
+            sub.add(Field("abcdef"[k] + "_part", Base(rng.choice(["uint", "int"]), w), k + 1))
+        m.add(sub)
+        n = rng.sample(range(1, 40), 5)
+        m.add(Field("recent_modes", Arr(Ref(e), cap, ext=ext), n[0]))
+        m.add(Field("history", Arr(Ref(sub), cap2, ext=ext), n[1]))
+        m.add(Field("mode_now", Ref(e), n[2]))
+        m.add(Field("last", Ref(sub), n[3]))
+        m.add(Field("gap", Base("uint", rng.choice([1, 3, 6])), n[4]))
+        root.add(m)
+        sides.append((m, e, sub))
+    both = Message("Both" + tag)
+    (lm, le, ls), (rm, re_, rs) = sides
+    both.add(Field("right_modes", Arr(Ref(re_), cap, ext=ext), 1))
+    both.add(Field("left_modes", Arr(Ref(le), cap, ext=ext), 2))
+    both.add(Field("left_history", Arr(Ref(ls), cap2, ext=ext), 3))
+    both.add(Field("right_history", Arr(Ref(rs), cap2, ext=ext), 4))
+    al = root.add(Alias("Delta" + tag, Base("int", rng.choice([3, 7, 12, 17, 29, 33, 63]))))
+    both.add(Field("deltas", Arr(Ref(al), rng.choice([1, 2, 4])), 5))
+    both.add(Field("delta", Ref(al), 6))
+    root.add(both)
 
 
 def flat_name(d: Any) -> str:
